@@ -7,8 +7,17 @@ open OciModel.Mem (Op Out)
 structure WrapState where
   kind : String := "ro"
   mem  : Mem.State := Mem.init false
+  /-- `wrap race <pushmanifest …>`: a competitor's push, performed directly on the underlying
+  registry right after the next `PushManifest` that reaches it through the wrapper. -/
+  pending : Option Op := none
 
 def B : Backend Mem.State := Mem.step Driver.Mem.H
+
+/-- The underlying registry with the armed competitor in front of it. -/
+def Braced : Backend (Mem.State × Option Op) := fun s op =>
+  match op, s.2 with
+  | .pushManifest _ _ _ _ _, some c => (((B (B s.1 op).1 c).1, none), (B s.1 op).2)
+  | _, _ => (((B s.1 op).1, s.2), (B s.1 op).2)
 
 def snapRepo (digests : List Bytes) (name : Bytes) (rp : Mem.Repo) : String :=
   let tags := (Mem.keysAfter rp.tags []).map fun t =>
@@ -23,13 +32,17 @@ def snapRepo (digests : List Bytes) (name : Bytes) (rp : Mem.Repo) : String :=
 `wrap init ro|imm` · `wrap raw <mem op…>` (on the underlying registry) ·
 `wrap via <mem op…>` (through the wrapper) · `wrap snap <digest>*` (dump of the underlying registry) -/
 def drive (st : WrapState) : List String → WrapState × String
-  | ["init", k] => if k == "ro" || k == "imm" then ({ kind := k, mem := Mem.init false }, "ok") else (st, "bad-op")
+  | ["init", k] => if k == "ro" || k == "imm" then ({ kind := k, mem := Mem.init false, pending := none }, "ok") else (st, "bad-op")
   | "raw" :: toks =>
     match Driver.Mem.parseOp toks with
     | none => (st, "bad-op")
     | some op =>
       let (m, out) := B st.mem op
       ({ st with mem := m }, Driver.Mem.showOut out)
+  | "race" :: toks =>
+    match Driver.Mem.parseOp toks with
+    | some (.pushManifest r t d mt dec) => ({ st with pending := some (.pushManifest r t d mt dec) }, "ok")
+    | _ => (st, "bad-op")
   | "via" :: toks =>
     match Driver.Mem.parseOp toks with
     | none => (st, "bad-op")
@@ -42,8 +55,10 @@ def drive (st : WrapState) : List String → WrapState × String
           | (m, some out, _) => ({ st with mem := m }, Driver.Mem.showOut out)
           | (_, none, _) => (st, "stuck")
       else
-        match immStep Driver.Mem.H B st.mem op with
-        | (m, some out, _) => ({ st with mem := m }, Driver.Mem.showOut out)
+        match immStep Driver.Mem.H Braced (st.mem, st.pending) op with
+        | ((m, p), some out, _) =>
+          ({ st with mem := m, pending := p },
+            Driver.Mem.showOut out ++ (if st.pending.isSome && p.isNone then " +raced" else ""))
         | (_, none, _) => (st, "stuck")
   | "snap" :: toks =>
     match toks.mapM Hex.decodeTok with
